@@ -108,3 +108,12 @@ Print Assumptions C04_kernel_tie.
 Example C04_example :
   sub Zops (mk_default [1; 1] 1 false) [(1, 5)] [(2, 7); (1, 1)] = [(1, 4); (2, -7)].
 Proof. vm_compute. reflexivity. Qed.
+
+(* ---- the tie to today's source: the loop bodies of codegen_add / codegen_sub / codegen_neg as regenerated
+   from /repo/kingdon/codegen.py (Gen/Kernels.v) ARE the model's ---- *)
+From KV Require Import Gen.Kernels Bridge.Kernels.
+Theorem C04_addsub_kernel_is_todays_source : forall (R : Type) (O : ops R) (vals : mv R) kv,
+  gen_add_step O vals kv = add_step O vals kv /\ gen_sub_step O vals kv = sub_step O vals kv /\
+  forall v, gen_neg_val O v = o_neg O v.
+Proof. intros R O vals kv. exact (conj (br_add_step O vals kv) (conj (br_sub_step O vals kv) (br_neg_val O))). Qed.
+Print Assumptions C04_addsub_kernel_is_todays_source.
